@@ -18,8 +18,11 @@ import (
 	netmail "net/mail"
 	"os"
 	"path/filepath"
+	"runtime"
 	"sort"
+	"strconv"
 	"strings"
+	"sync"
 	"testing/fstest"
 	tt "text/template"
 	"time"
@@ -99,6 +102,56 @@ func clipS(s string, n int) string {
 }
 
 var errProducer = errors.New("scripted producer failure")
+
+// calls of the base64 line breaker (build-tag hook of package mail), recorded per goroutine
+var (
+	b64Mu    sync.Mutex
+	b64Calls = map[int64]*[][]int{}
+)
+
+func goid() int64 {
+	var buf [64]byte
+	n := runtime.Stack(buf[:], false)
+	f := bytes.Fields(buf[:n])
+	if len(f) < 2 {
+		return -1
+	}
+	id, _ := strconv.ParseInt(string(f[1]), 10, 64)
+	return id
+}
+
+// InstallHooks routes mail.VerifHook to the recorder of the calling goroutine.
+func InstallHooks() {
+	mail.VerifHook = func(event string, a, b int) {
+		b64Mu.Lock()
+		dst := b64Calls[goid()]
+		b64Mu.Unlock()
+		if dst == nil {
+			return
+		}
+		kind := 0
+		if event == "b64.close" {
+			kind = 1
+		}
+		*dst = append(*dst, []int{kind, a, b})
+	}
+}
+
+// recordB64 runs f and returns the line breaker calls it made in this goroutine.
+func recordB64(f func()) [][]int {
+	calls := [][]int{}
+	id := goid()
+	b64Mu.Lock()
+	b64Calls[id] = &calls
+	b64Mu.Unlock()
+	defer func() {
+		b64Mu.Lock()
+		delete(b64Calls, id)
+		b64Mu.Unlock()
+	}()
+	f()
+	return calls
+}
 
 // ---------------------------------------------------------------------------
 // concretisation of abstract classes (seeded)
@@ -964,7 +1017,7 @@ func Analyse(r *rec.Recorder, out []byte, b *Built, tmpdir, tag string, k int) {
 	leaves(inner, &ls)
 	for i, lf := range ls {
 		if i >= len(b.Slots) {
-			r.Emit("leaf", "i", i+1, "eq", false, "why", "more leaves than slots")
+			r.Emit("leaf", "i", i+1, "eq", false, "why", "more leaves than slots", "b64lines", []int{}, "b64", false, "cte", "")
 			continue
 		}
 		s := b.Slots[i]
@@ -990,7 +1043,21 @@ func Analyse(r *rec.Recorder, out []byte, b *Built, tmpdir, tag string, k int) {
 		} else if !eq {
 			why = fmt.Sprintf("first difference at %d (want %d bytes, got %d)", firstDiff(want, got), len(want), len(got))
 		}
-		r.Emit("leaf", "i", i+1, "eq", eq, "why", why)
+		b64lines := []int{}
+		if strings.ToLower(strings.TrimSpace(cte)) == "base64" {
+			body := lf.Body
+			for len(body) > 0 {
+				j := bytes.Index(body, []byte("\r\n"))
+				if j < 0 {
+					b64lines = append(b64lines, len(body))
+					break
+				}
+				b64lines = append(b64lines, j)
+				body = body[j+2:]
+			}
+		}
+		r.Emit("leaf", "i", i+1, "eq", eq, "why", why, "b64lines", b64lines, "b64", strings.ToLower(strings.TrimSpace(cte)) == "base64",
+			"cte", strings.ToLower(strings.TrimSpace(cte)))
 	}
 	// values of free-text fields of the top-level header section: unfold + RFC 2047 decode
 	for name, want := range b.HdrWant {
@@ -1149,8 +1216,9 @@ func (rn *Runner) Run() {
 	var first []byte
 	refLen := 0
 	type rendering struct {
-		k int
-		b []byte
+		k     int
+		b     []byte
+		calls [][]int
 	}
 	var distinct []rendering
 	var reader *mail.Reader
@@ -1158,10 +1226,11 @@ func (rn *Runner) Run() {
 		var out bytes.Buffer
 		var n int64
 		var oerr error
+		var calls [][]int
 		pan := ""
 		switch op {
 		case "WriteTo":
-			n, oerr, pan = safeWriteTo(built.Msg, &out)
+			calls = recordB64(func() { n, oerr, pan = safeWriteTo(built.Msg, &out) })
 		case "Write":
 			n, oerr = built.Msg.Write(&out)
 		case "Reader":
@@ -1259,7 +1328,7 @@ func (rn *Runner) Run() {
 			}
 			id = hashID(ids, same)
 			if (len(ids) > before || built.Smime.Key != "") && len(distinct) < 3 {
-				distinct = append(distinct, rendering{k + 1, append([]byte{}, out.Bytes()...)})
+				distinct = append(distinct, rendering{k + 1, append([]byte{}, out.Bytes()...), calls})
 			}
 			if first == nil {
 				first = append([]byte{}, out.Bytes()...)
@@ -1270,6 +1339,11 @@ func (rn *Runner) Run() {
 	}
 	for i, o := range distinct { // every distinct output is read back
 		r.Emit("render", "id", i+1, "second", false)
+		// (only where the check asks for it - C18 -: folding thousands of calls through the specification is slow;
+		// a signed message is rendered twice per operation and is left out)
+		if o.calls != nil && built.Smime.Key == "" && os.Getenv("VERIF_B64") != "" {
+			r.Emit("b64", "calls", o.calls)
+		}
 		Analyse(r, o.b, built, rn.TmpDir, fmt.Sprintf("%d-%d", rn.T, i), o.k)
 	}
 	if sc.RoundTrip && first != nil {
